@@ -24,6 +24,6 @@ for d in sorted(glob.glob('/verif/seeded/*/')):
 print('| change | what it does (author\'s first line) | result | first fingerprint reported |')
 print('|---|---|---|---|')
 for r in rows: print('| %s | %s | %s | `%s` |'%r)
-n=len(rows); c=sum(1 for r in rows if r[2]=='caught'); s=sum(1 for r in rows if 'after' in r[2]); mi=sum(1 for r in rows if 'missed' in r[2])
+n=len(rows); c=sum(1 for r in rows if r[2]=='caught'); s=sum(1 for r in rows if 'after' in r[2]); o=sum(1 for r in rows if 'caught by' in r[2]); mi=sum(1 for r in rows if r[2]=='**missed**')
 print()
-print('%d changes: %d caught at first evaluation, %d caught after strengthening, %d missed.'%(n,c,s,mi))
+print('%d changes: %d caught by the owning check at first evaluation, %d caught by it after strengthening, %d caught only by a neighbouring property\'s check, %d missed.'%(n,c,s,o,mi))
